@@ -312,3 +312,28 @@ Proof.
     + destruct (m_step sb (HSync bh)) as [sb1 rb] eqn:Eb. inversion H; subst.
       split; [side_by Eb | split; [side_by El | split; reflexivity]].
 Qed.
+
+(* a method that does not write: the frame and the bytes *)
+Lemma meta_step s o i h n :
+  meta_op o = true -> op_handle_of o = Some i -> nth_error (mhandles s) i = Some h -> get_node s (href h) = Some n ->
+  let s' := fst (m_step s o) in
+  Frame Some s s' /\ dkeep nobody s s' /\ (forall j, j <> i -> nth_error (mhandles s') j = nth_error (mhandles s) j) /\
+  length (mhandles s') = length (mhandles s) /\ (forall k, lookup s' k = lookup s k).
+Proof.
+  intros Hm Ho Hh Hn s'. destruct (hop_eff s o i h n Ho Hh Hn) as (h' & E & _). fold s' in E.
+  destruct (hop_meta_data s o i h n Hm Ho Hh Hn) as (n' & Hn' & Hd'). fold s' in Hn'.
+  split.
+  - split.
+    + intros k. left. cbn [olookup]. unfold lookup. now rewrite (he_data _ _ _ _ _ E).
+    + intros r m Hr. destruct (Nat.eq_dec r (href h)) as [->|Hne].
+      * rewrite Hn in Hr. inversion Hr; subst m. destruct (he_node _ _ _ _ _ E n Hn) as (n2 & Hn2 & Hd2 & _).
+        exists n2. split; [exact Hn2|]. split; [exact Hd2|]. intros _. congruence.
+      * exists m. rewrite (he_nodes _ _ _ _ _ E r Hne). auto.
+    + intros k r m _ Hf Hr. exfalso. apply get_some_lt in Hr. rewrite (he_heap _ _ _ _ _ E) in Hr. unfold fresh_in in Hf. lia.
+    + rewrite (he_heap _ _ _ _ _ E). lia.
+  - split.
+    + intros r m m' Hr Hr' _. destruct (Nat.eq_dec r (href h)) as [->|Hne]; [congruence|].
+      rewrite (he_nodes _ _ _ _ _ E r Hne) in Hr'. congruence.
+    + split; [exact (he_other _ _ _ _ _ E)|]. split; [exact (he_hlen _ _ _ _ _ E)|].
+      intros k. unfold lookup. now rewrite (he_data _ _ _ _ _ E).
+Qed.
